@@ -94,6 +94,23 @@ def _raii_guard(ctx, rid):
     return res
 
 
+def _shared_record_mode(ctx):
+    """rcu_read_lock has a path on which the guard takes over a record pointer kept in a static / thread_local variable"""
+    key = "_rcu_shared_mode"
+    if key not in ctx.__dict__:
+        mode = False
+        for f in ctx.fb.functions(rec=GUARD, name="rcu_read_lock", raw=True):
+            for st in f.stmts.values():
+                if st["k"] == "BinaryOperator" and st.get("op") == "=" and path(f, f.children(st)[0]) == "this.m_zombie" and \
+                        re.match(r"^g:\w+$", path(f, f.children(st)[1]) or ""):
+                    mode = True
+        ctx.__dict__[key] = mode
+        if mode:
+            ctx.unknown("rcu_guard shares one log record between the handles of a thread; the rules that follow one record per "
+                        "handle from registration to release do not describe that representation")
+    return ctx.__dict__[key]
+
+
 def register(ctx, rid="C05.register", handles=True, record=True):
     ctx.rule(rid, "handles register before handing out the list and unregister iff registered; the log record is "
              "complete (owner, next) before the CAS publishes it", floor=16)
@@ -185,8 +202,19 @@ def register(ctx, rid="C05.register", handles=True, record=True):
             ev = pe.events
             cas = [e for e in ev if e["k"] == "cas" and e["fld"] == (RCU, "m_zombie_head")]
             if not cas:
+                # a handle may JOIN a record that is already registered (one record per thread, shared by its handles): then
+                # it leaves with m_zombie pointing to that record.  Leaving without any record is what must not happen.
+                ws = [e for e in ev if e["k"] == "write" and e["obj"] == "this.m_zombie"]
+                joined = ws and ws[-1].get("val") and re.match(r"^g:\w+$", ws[-1]["val"]) and ws[-1].get("lit") is None
+                if joined:
+                    ctx.unknown("%s: %s: a handle can join the record %s of another handle of its thread instead of registering one; "
+                                "when that shared record may be released is a protocol these rules do not describe"
+                                % (rid, f.where, ws[-1]["val"][2:]))
+                    ctx.__dict__["_rcu_shared_record"] = ws[-1]["val"]
+                    continue
                 ctx.ob(rid, False, f.where, "rcu_read_lock publishes its record with a CAS on m_zombie_head",
-                       "a path registers nothing", fn=f.label, inst=f.qname)
+                       "a path registers nothing%s" % (" and leaves the handle without a record (m_zombie = nullptr): nothing keeps the "
+                                                       "elements this handle reads from being reclaimed" if ws else ""), fn=f.label, inst=f.qname)
                 continue
             c0 = cas[0]
             i0 = ev.index(c0)
@@ -366,6 +394,8 @@ def reclaim(ctx, rid="C05.reclaim"):
                         ctx.ob(rid, False, f.loc(e["st"]), "unlock never frees its own record", "", fn=f.label, inst=f.qname)
             # (e) final owner.store(nullptr)
             fin = [e for e in ev if e["k"] == "astore" and e["obj"] == "this.m_zombie->owner"]
+            if not fin and _shared_record_mode(ctx):
+                continue        # a handle that shares its thread's record leaves it registered for the others (undecided above)
             ok = len(fin) == 1 and fin[0]["lit"] == "CXXNullPtrLiteralExpr"
             if ok:
                 i = ev.index(fin[0])
